@@ -61,7 +61,7 @@ def fold_workflow(f):
                     wants = [f"self.correct_array_series({data})"]
                 else:
                     tail = "" if scalar else ", :"
-                    wants = [f"np.stack([{', '.join(f'self.correct_array({base}[Ellipsis, {t}{tail}]())' for t in range(NT))}], axis=<opaque int SD>)" for base in ("DATA", "DATA.copy()")]
+                    wants = [f"np.stack([{', '.join(f'self.correct_array({base}[..., {t}{tail}]())' for t in range(NT))}], axis=<opaque int SD>)" for base in ("DATA", "DATA.copy()")]
                 if ow:
                     got = repr(inp.fields.get("img"))
                     ret_ok = r is inp
@@ -164,7 +164,7 @@ def rule_b(ctx, E, f, img_b, sem=None):
                     sites.append(c)
     if sem is not None and not sites:
         # the folded non-overwrite runs show which correct_array calls receive (a view of) the input data
-        sites = [ast.parse(v.replace("<opaque arr DATA>", "DATA").replace("]()", "]").replace("Ellipsis", "..."), mode="eval").body for v in sem["views"]]
+        sites = [ast.parse(v.replace("<opaque arr DATA>", "DATA").replace("]()", "]"), mode="eval").body for v in sem["views"]]
     mutators = []
     n_cls = 0
     for k in subs:
